@@ -88,11 +88,12 @@ def surface_global_decode(lat_e, lon_e, dlat, dlon, rlat_off, rlon_off, rwrap, k
         assert r is None, "None when the two frames' latitudes lie in different NL bands"
     else:
         assert r is not None, "a position is returned when both frames lie in the same NL band"
-        want_lat = rlat_e if newest == 0 else rlat_o
-        want_lon = rlon_e if newest == 0 else rlon_o
-        assert close(r[0], want_lat), "latitude == the newer frame's encoded latitude (hemisphere of the receiver side)"
-        assert cpr_spec.congruent360(r[1], want_lon) and -180 <= r[1] and r[1] <= 180, \
-            "longitude == the newer frame's encoded longitude modulo 360 (the solution nearest the receiver)"
+        i_n = 0 if newest == 0 else 1
+        s_lat = cpr_spec.lat_step(i_n, True)
+        assert -s_lat <= r[0] - lat_n and r[0] - lat_n <= s_lat, \
+            "latitude within one quantisation step of the position carried by the newer frame (receiver's side of the equator or not)"
+        assert cpr_spec.within_mod360(r[1], lon_n, cpr_spec.lon_step(k, i_n, True)), \
+            "longitude within one quantisation step of the position carried by the newer frame, modulo 360 (the solution nearest the receiver)"
 
 
 def region_equator(lat_e, lon_e, dlat, dlon, rlat_off, rlon_off, rwrap, k, dk, newest, t_e, t_o,
